@@ -466,6 +466,11 @@ def _exec_worker(task):
                                 'model does not parse %r (%s), implementation: %s' % (e, m.get('parse'), K16.show(d)), e)
                     continue
                 q = K16.model_result(m['q'])
+                if comp and q == ([], []) and d == 'err:lib:query':
+                    # finding F16c of C16 on a tree without its fix (notes/C16_fix_empty_selection_compressed.diff): compressed
+                    # data, a selector that designates no subset, a path that raises; the model is the fixed code
+                    cnt('model:F16c-empty-selection-on-compressed(known finding of C16)')
+                    continue
                 if not K16.same_result(d, q):
                     finding('corr', {'kind': 'correspondence', 'stage': 'query'}, 'implementation %s, model %s' % (K16.show(d), K16.show(q)), e)
                     continue
